@@ -36,7 +36,6 @@ type c06Job struct {
 	Prior string `json:"prior"` // none | inside | stop
 	P     uint64 `json:"p"`     // recorded position before the run (prior != none)
 	Grow  int    `json:"grow"`  // number of growth operations of the environment (1: h→h+3; 2: h→h+1→h+3; 3: +1,+1,+1)
-	FreeB bool   `json:"freeb"` // switches to the environment at step boundaries are free (else they count as the preemption)
 }
 
 type c06Case struct {
@@ -444,11 +443,7 @@ func c06Exec(j c06Job, p *c06Prep, ch vrt.Chooser, states *vrt.StateSet, trace b
 				if w.V.Closing() {
 					return
 				}
-				if j.FreeB {
-					growChoice(vrt.KFree, "boundary")
-				} else {
-					growChoice(vrt.KPreempt, "boundary")
-				}
+				growChoice(vrt.KPreempt, "boundary")
 				if w.V.ChooseEnv(2, vrt.KEnv, "restart") == 1 {
 					// process restart without crash: every in-memory object is discarded
 					ts, err := w.LoadTasks(conf)
@@ -701,14 +696,7 @@ func c06Run(c *fw.Ctx) {
 		states := vrt.NewStateSet()
 		b := c06Bounds(j, c.Thorough())
 		st := explore.Explore(b, true, func(r *explore.Run) bool {
-			var chs vrt.Chooser = r
-			if dbg := os.Getenv("C06_CHOICES"); dbg != "" && len(r.Trimmed()) == 0 {
-				f, _ := os.OpenFile(dbg, os.O_APPEND|os.O_CREATE|os.O_WRONLY, 0o644)
-				fmt.Fprintf(f, "job %+v\n", j)
-				chs = &dbgChooser{in: r, f: f}
-				defer f.Close()
-			}
-			res := c06Exec(j, p, chs, states, false)
+			res := c06Exec(j, p, r, states, false)
 			if res.harness != "" {
 				c.HarnessError("job %+v choices %v: %s", j, r.Trimmed(), res.harness)
 				return false
